@@ -1,19 +1,34 @@
 ------------------------------ MODULE MC_LegacyKd ------------------------------
-(* All (n, hp, op, ip, level): n = 1..MaxN encoded points, each of the three counts in n-1 .. n+1 (and one huge value for op / ip, written by
-   the assembler), compression levels 0..7.  One state per tuple (the tuple is the state), one printed row per state.                 *)
+(* All (n, method, hp, op, fp, ip, level): n = 1..MaxN encoded points, each count in n-1 .. n+1 (and one huge value for op / fp / ip, written by
+   the assembler), compression levels 0..7, the integer and the float method; for the float method also the all-zero header (hp = op = 0) in front
+   of a payload that still names n (or a huge number of) points.  One state per tuple (the tuple is the state), one printed row per state.   *)
 EXTENDS LegacyKd, Json, TLC
 CONSTANTS MaxN, Emit
-VARIABLES n, hp, op, ip, level, hop, hip, neg
-vars == <<n, hp, op, ip, level, hop, hip, neg>>
-Init == /\ n \in 1..MaxN /\ level \in 0..7
-        /\ hp \in (n - 1)..(n + 1) /\ op \in (n - 1)..(n + 1) /\ ip \in (n - 1)..(n + 1)
-        /\ hop \in BOOLEAN /\ hip \in BOOLEAN /\ ~(hop /\ hip)
-        /\ neg \in BOOLEAN /\ (neg => (~hop /\ ~hip /\ hp = n /\ op = n /\ ip = n))
+VARIABLES n, meth, hp, op, fp, ip, level, hop, hfp, hip, neg
+vars == <<n, meth, hp, op, fp, ip, level, hop, hfp, hip, neg>>
+Init == /\ n \in 1..MaxN /\ level \in 0..7 /\ meth \in {"int", "float"}
+        /\ \/ hp \in (n - 1)..(n + 1) /\ op \in (n - 1)..(n + 1)
+           \/ meth = "float" /\ hp = 0 /\ op = 0
+        /\ ip \in (n - 1)..(n + 1)
+        /\ IF meth = "float" THEN fp \in {0} \cup ((n - 1)..(n + 1)) ELSE fp = n
+        /\ hop \in BOOLEAN /\ hip \in BOOLEAN /\ hfp \in BOOLEAN /\ (hfp => meth = "float")
+        /\ ~(hop /\ hip) /\ ~(hop /\ hfp) /\ ~(hip /\ hfp)
+        /\ neg \in BOOLEAN /\ (neg => (~hop /\ ~hip /\ ~hfp /\ hp = n /\ op = n /\ ip = n /\ fp = n))
 Next == UNCHANGED vars
-\* hop / hip: the assembler writes 2^27 instead of op / ip (a count no allocation of the cloud justifies)
+\* hop / hfp / hip: the assembler writes 2^27 instead of op / fp / ip (a count no allocation of the cloud justifies)
 \* neg: the assembler writes 0x80000000 for the header count AND the count in front of the payload (a negative int32: refused by the geometry header)
-Row == LET r == IF neg THEN Decode(n, -1, -1, ip, level) ELSE IF hop THEN Decode(n, hp, hp + 1000, ip, level) ELSE Decode(n, hp, op, ip, level) IN
-       [mode |-> "lkd", n |-> n, hp |-> hp, op |-> op, ip |-> ip, level |-> level, hop |-> hop, hip |-> hip, neg |-> neg, out |-> r.out, np |-> r.np, faces |-> <<>>]
-EmitRow == Emit => PrintT(ToJson(Row))
+Huge == 134217728
+RowI == LET r == IF neg THEN Decode(n, -1, -1, ip, level) ELSE IF hop THEN Decode(n, hp, hp + 1000, ip, level) ELSE Decode(n, hp, op, ip, level)
+            \* the payload is asked for more points than were encoded: whether its bit streams run dry depends on the points (module KdTree), not modelled here
+            more == r.out = "acc" /\ (ip > n \/ hip)
+        IN [mode |-> "lkd", n |-> n, hp |-> hp, op |-> op, ip |-> ip, level |-> level, hop |-> hop, hip |-> hip, neg |-> neg,
+            out |-> IF more THEN "any:payload-of-another-size" ELSE r.out, np |-> r.np, faces |-> <<>>]
+RowF == LET r == IF neg THEN DecodeQ(n, -1, -1, fp, ip, level)
+                 ELSE DecodeQ(n, hp, IF hop THEN Huge ELSE op, IF hfp THEN Huge ELSE fp, IF hip THEN Huge ELSE ip, level)
+            \* every count agrees but the payload holds another number of points: what the kd-tree decoder makes of it is not modelled here
+            short == r.out = "acc" /\ r.np # n /\ r.np > 0
+        IN [mode |-> "lkq", n |-> n, hp |-> hp, op |-> op, fp |-> fp, ip |-> ip, level |-> level, hop |-> hop, hfp |-> hfp, hip |-> hip, neg |-> neg,
+            out |-> IF short THEN "any:payload-of-another-size" ELSE r.out, np |-> r.np, faces |-> <<>>]
+EmitRow == Emit => PrintT(ToJson(IF meth = "int" THEN RowI ELSE RowF))
 Spec == Init /\ [][Next]_vars
 =============================================================================
